@@ -184,7 +184,7 @@ def main():
             "technique": "contract-based deductive verification: " + tech,
             "level_claimed": {"category": "other" if pid in BOUNDED_ONLY else "proof",
                               "design_ref": f"DESIGN.md section 5 ({pid})",
-                              "text": ("BOUNDED STAND-IN (nothing counted as proved): " if pid in BOUNDED_ONLY else "") + text},
+                              "text": ("BOUNDED STAND-IN (the behavioural obligations are bounded checks and nothing of them is counted as proved; syntactic frame obligations and parsing contracts beside them are reported separately in the evidence): " if pid in BOUNDED_ONLY else "") + text},
             "level_note": TRUST,
         })
     na = [{"property_id": k, "reason": v} for k, v in sorted(NOT_APPLICABLE.items())]
